@@ -435,6 +435,13 @@ class SNum(Sym):
             elif op is _OPS['mul'] and self.c is not None and self.c == 0:
                 return 0          # 1j * 0: the imaginary part of a real-valued computation
             else:
+                me = SComplex(self, 0)
+                if op is _OPS['mul']:
+                    return me * o
+                if op is _OPS['add']:
+                    return me + o
+                if op is _OPS['sub']:
+                    return (o - me) if swap else (me - o)
                 raise Abort('complex arithmetic on a symbolic value')
         a, b = (o, self) if swap else (self, o)
         ca = a.c if isinstance(a, SNum) else (_cval(a) if _isconc(a) else None)
